@@ -156,6 +156,16 @@ func runPrefix(w *World, name string) {
 			w.Step(pt.Action{Op: "inc", R: 0, P: 1})
 		}
 		syncAll()
+	case "reburied": // (documents) a key was written, deleted and written again with a container by replica 0, while replica 1,
+		// which had seen nothing of that, put a container under the same key: everybody has pulled everything, and replica 0
+		// holds two tombstones that were buried by the same winner
+		w.Step(pt.Action{Op: "dput", R: 0, K: "a", V: "p"})
+		w.Step(pt.Action{Op: "ddel", R: 0, K: "a"})
+		w.Step(pt.Action{Op: "dput", R: 0, K: "a", V: "o"})
+		w.Step(pt.Action{Op: "dput", R: 1, K: "a", V: "o"})
+		w.Step(pt.Action{Op: "sync", R: 0})
+		w.Step(pt.Action{Op: "sync", R: 1})
+		syncAll()
 	case "skew": // the last replica is three operations ahead and has pushed them; nobody has pulled yet: a later pull
 		// delivers a batch of several writers in which a lower clock value follows higher ones
 		l := len(w.reps) - 1
